@@ -91,9 +91,10 @@ def encode(v):
 
 
 class _R(object):
-    def __init__(self, data):
+    def __init__(self, data, errors="strict"):
         self.d = data
         self.i = 0
+        self.errors = errors
 
     def take(self, n):
         if self.i + n > len(self.d):
@@ -125,7 +126,7 @@ def _dec(r):
         b = _dec(r)
         if type(b) is not bytes:
             raise RefCodecError("text payload is not a byte string")
-        return b.decode("utf-8")
+        return b.decode("utf-8", r.errors)
     if 0x0a <= tag <= 0x0d:
         return r.take(tag - 0x09)
     if tag == 0x0e:
@@ -155,8 +156,9 @@ def _dec(r):
     raise RefCodecError("unknown tag 0x%02x" % tag)
 
 
-def decode(data):
-    r = _R(data)
+def decode(data, errors="strict"):
+    """errors='surrogatepass' for ledgers that only need the message envelope of frames carrying such text"""
+    r = _R(data, errors)
     return _dec(r)
 
 
